@@ -30,7 +30,9 @@ def run(ctx):
         ctx.broken_tie("harness does not build against /repo", log[-2000:])
         return
     rc, out = vf.sh([h, "-seed", str(ctx.seed), "-n", str(n), "c38"], timeout=1200, env=vf.GOENV)
-    obs = [json.loads(l) for l in out.splitlines() if l.startswith("{")]
+    allobs = [json.loads(l) for l in out.splitlines() if l.startswith("{")]
+    obs = [o for o in allobs if o.get("kind") != "encode"]
+    encs = [o for o in allobs if o.get("kind") == "encode"]
     if rc != 0 or not obs:
         ctx.broken_tie("harness crashed", out[-2000:])
         return
@@ -58,6 +60,25 @@ def run(ctx):
         if why:
             fails.append((why, o))
 
+    # (1b) newMessage -> EncodeChunks(maxBodySize) -> signAndEncrypt for bodies k*max+j: every chunk carries at most
+    #      max body bytes and its secured size fits the chunk size; len/max + 1 chunks, all 'C' but the last 'F'
+    for o in encs:
+        why = None
+        if o.get("err"):
+            why = "EncodeChunks/signAndEncrypt failed: " + o["err"]
+        elif not o.get("raw"):
+            why = "no chunk produced"
+        elif max(o["raw"]) > o["maxbody"]:
+            why = "a chunk carries %d body bytes, more than the maximum body size %d" % (max(o["raw"]), o["maxbody"])
+        elif max(o["secured"]) > o["cs"]:
+            why = "secured chunk of %d bytes exceeds chunk size %d" % (max(o["secured"]), o["cs"])
+        elif sum(o["raw"]) != o["bodylen"]:
+            why = "chunks carry %d bytes of a %d-byte body" % (sum(o["raw"]), o["bodylen"])
+        elif len(o["raw"]) != o["bodylen"] // o["maxbody"] + 1 or o["types"] != "C" * (len(o["raw"]) - 1) + "F":
+            why = "unexpected number or types of chunks"
+        if why:
+            fails.append((why, dict(o, body=o["bodylen"])))
+
     # (2) correspondence: model (Coq, vm_compute) vs implementation on the same inputs
     corr_ok, mism = True, []
     if ok:
@@ -76,6 +97,27 @@ def run(ctx):
   (go_SetMaximumBodySize cs block plain sig rsig =? maxbody) &&
   (secured_len m block plain sig rsig sym_hdr (seq_hdr + body) =? outlen) &&
   (message_size m block plain sig rsig sym_hdr (seq_hdr + body) =? sizefld)""")
+        elines = []
+        egood = [o for o in encs if not o.get("err") and o.get("raw")]
+        for o in egood:
+            elines.append("(%s, %d, (%d, %d, %d, %d), %d, %d, [%s])" % (
+                MODE[o["mode"]], o["cs"], next(g["block"] for g in obs if g["policy"] == o["policy"]),
+                next(g["plain"] for g in obs if g["policy"] == o["policy"]), next(g["sig"] for g in obs if g["policy"] == o["policy"]),
+                next(g["rsig"] for g in obs if g["policy"] == o["policy"]), o["maxbody"], o["bodylen"],
+                ";".join("(%d,%d)" % rs for rs in zip(o["raw"], o["secured"]))))
+        oke, idxe, cloge = ctx.eval_cases(
+            "From Coq Require Import ZArith List Bool.\nFrom Opcua Require Import Model.Layout Gen.ArithFromGo.\nImport ListNotations. Open Scope Z_scope.",
+            "sec_mode * Z * (Z*Z*Z*Z) * Z * Z * list (Z*Z)", elines,
+            """  let '(m, cs, (block, plain, sig, rsig), maxbody, bodylen, chunks) := c in
+  (go_SetMaximumBodySize cs block plain sig rsig =? maxbody) &&
+  (fst (go_nrChunks bodylen maxbody) =? Z.of_nat (length chunks)) &&
+  forallb (fun rs => secured_len m block plain sig rsig sym_hdr (seq_hdr + fst rs) =? snd rs) chunks""", name="Enc")
+        if not oke:
+            okc = False
+            clog = (clog or "") + cloge
+        elif idxe:
+            corr_ok = False
+            detail["encode_mismatches"] = [egood[i] for i in idxe[:6]]
         if not okc:
             corr_ok = False
             detail["cases"] = clog
@@ -88,8 +130,9 @@ def run(ctx):
 
     distinct = {(o["policy"], o["mode"], o["cs"], o["body"]) for o in obs}
     ctx.coverage.update({
-        "evaluations": len(obs), "distinct_nontrivial": len(distinct),
-        "rule": "real uapolicy.Symmetric algorithms x allowed modes x chunk sizes (all residues mod 16 near 8192, 65535, 65536, 2^20 + %d seeded random sizes) x bodies {max, max+1, 0, random}; distinct = distinct (policy, mode, chunk size, body size)" % n,
+        "evaluations": len(obs) + len(encs), "distinct_nontrivial": len(distinct) + len({(o["policy"], o["mode"], o["cs"], o["bodylen"]) for o in encs}),
+        "encode_chunks_cases": len(encs),
+        "rule": "real uapolicy.Symmetric algorithms x allowed modes x chunk sizes (all residues mod 16 near 8192, 65535, 65536, 2^20 + %d seeded random sizes) x bodies {max, max+1, 0, random}; plus newMessage -> EncodeChunks -> signAndEncrypt for message bodies k*max+j (k=1..4, j=0..3): per-chunk body <= max, secured size <= chunk size, sizes vs the model; distinct = distinct (policy, mode, chunk size, body size)" % n,
         "samples": obs[:3] + obs[-2:],
         "policies": sorted({o["policy"] for o in obs}),
         "chunk_sizes": len({o["cs"] for o in obs}),
@@ -99,8 +142,9 @@ def run(ctx):
 
     new = 0
     seen = set()
+    import re
     for why, o in fails:
-        key = "%s/%d/%s" % (o["policy"], o["mode"], why.split(":")[0][:40].replace(" ", "_"))
+        key = "%s/%d/%s" % (o["policy"], o["mode"], re.sub(r"\d+", "N", why.split(":")[0])[:40].replace(" ", "_"))
         if key in seen:
             continue
         seen.add(key)
